@@ -148,28 +148,38 @@ func (m *eofModel) excludes(cond ast.Expr, branch bool, depth int) bool {
 		if eofFalsePredicates[name] && len(x.Args) == 1 && m.atom(x.Args[0], 0) {
 			return branch
 		}
-		// predicate method on the symbol with a single `return <expr>` body: look inside
-		if sel, ok := x.Fun.(*ast.SelectorExpr); ok && len(x.Args) == 0 && m.atom(sel.X, 0) {
-			if fn := core.CalleeFunc(m.info, x); fn != nil && fn.Pkg() != nil && core.IsSource(fn.Pkg().Path()) {
-				if pk := m.prog.ByPkg[fn.Pkg().Path()]; pk != nil {
-					for _, file := range pk.Syntax {
-						for _, d := range file.Decls {
-							fd, ok := d.(*ast.FuncDecl)
-							if !ok || pk.TypesInfo.Defs[fd.Name] != types.Object(fn) || fd.Body == nil || len(fd.Body.List) != 1 || fd.Recv == nil || len(fd.Recv.List) != 1 || len(fd.Recv.List[0].Names) != 1 {
-								continue
-							}
-							ret, ok := fd.Body.List[0].(*ast.ReturnStmt)
-							if !ok || len(ret.Results) != 1 {
-								continue
-							}
-							inner := &eofModel{info: pk.TypesInfo, decl: fd, sentinels: m.sentinels, fields: m.fields, calls: m.calls, prog: m.prog,
-								recvAtom: pk.TypesInfo.Defs[fd.Recv.List[0].Names[0]]}
-							return inner.excludes(ret.Results[0], branch, depth+1)
-						}
-					}
-				}
-			}
+		// predicate on the symbol — a method of the symbol's type without arguments, or a
+		// function taking the symbol as its only argument — with a single `return <expr>`
+		// body: look inside, with the receiver / parameter standing for the symbol
+		fn := core.CalleeFunc(m.info, x)
+		if fn == nil || fn.Pkg() == nil || !core.IsSource(fn.Pkg().Path()) {
+			return false
 		}
+		pk := m.prog.ByPkg[fn.Pkg().Path()]
+		if pk == nil {
+			return false
+		}
+		fd := core.DeclOf(pk, fn.Origin())
+		if fd == nil || fd.Body == nil || len(fd.Body.List) != 1 {
+			return false
+		}
+		ret, ok := fd.Body.List[0].(*ast.ReturnStmt)
+		if !ok || len(ret.Results) != 1 {
+			return false
+		}
+		var bound types.Object
+		sel, isSel := x.Fun.(*ast.SelectorExpr)
+		switch {
+		case isSel && len(x.Args) == 0 && m.atom(sel.X, 0) && fd.Recv != nil && len(fd.Recv.List) == 1 && len(fd.Recv.List[0].Names) == 1:
+			bound = pk.TypesInfo.Defs[fd.Recv.List[0].Names[0]]
+		case len(x.Args) == 1 && m.atom(x.Args[0], 0) && fd.Type.Params != nil && len(fd.Type.Params.List) == 1 && len(fd.Type.Params.List[0].Names) == 1:
+			bound = pk.TypesInfo.Defs[fd.Type.Params.List[0].Names[0]]
+		}
+		if bound == nil {
+			return false
+		}
+		inner := &eofModel{info: pk.TypesInfo, decl: fd, sentinels: m.sentinels, fields: m.fields, calls: m.calls, prog: m.prog, recvAtom: bound}
+		return inner.excludes(ret.Results[0], branch, depth+1)
 	}
 	return false
 }
@@ -233,7 +243,7 @@ func loopProgress(g *cfg.CFG, fs *ast.ForStmt, strong, weak func(ast.Node) bool,
 		}
 		var cond ast.Expr
 		if len(b.Succs) == 2 && len(b.Nodes) > 0 {
-			cond, _ = b.Nodes[len(b.Nodes)-1].(ast.Expr)
+			cond = core.BlockCond(b)
 		}
 		for i, s := range b.Succs {
 			nfl := fl
@@ -337,7 +347,7 @@ func SentinelRuns(r *core.Run, sc *Scope, tc TermConfig, sentinels []*types.Cons
 			}
 			var cond ast.Expr
 			if len(b.Succs) == 2 && len(b.Nodes) > 0 {
-				cond, _ = b.Nodes[len(b.Nodes)-1].(ast.Expr)
+				cond = core.BlockCond(b)
 			}
 			for i, s := range b.Succs {
 				nc := c
@@ -358,4 +368,14 @@ func SentinelRuns(r *core.Run, sc *Scope, tc TermConfig, sentinels []*types.Cons
 		}
 	}
 	r.Analysed["functions_with_sentinel_reads"] = n
+}
+
+// SymbolAtom returns a predicate telling whether an expression inside decl
+// denotes the lexer's / token walker's current or next input symbol (the
+// fields and peek functions of DefaultTermConfig, or a local defined once from
+// one of them).
+func SymbolAtom(p *core.Prog, info *types.Info, decl *ast.FuncDecl) func(ast.Expr) bool {
+	tc := DefaultTermConfig()
+	m := &eofModel{info: info, decl: decl, fields: tc.SymbolFields, calls: tc.SymbolCalls, prog: p}
+	return func(e ast.Expr) bool { return m.atom(e, 0) }
 }
